@@ -6,7 +6,7 @@
 package channeldb
 
 //@ func (c *ChannelStateDB) AdvanceCommitChainTail$1
-//@   props C02
+//@   props C02 C03
 //@   loop * havoc
 //@   loop 0 step len(validUpdates) == prev(len(validUpdates)) + ite(upd.LogIndex >= newCommit.Commitment.RemoteLogIndex, 1, 0)
 //@   site call append: assert upd.LogIndex >= newCommit.Commitment.RemoteLogIndex
